@@ -394,6 +394,41 @@ def check(chk):
         ok = args == ["template", "subscription_list", "settings", "priority", "context", "key"]
         chk.ob("PAIR-19", "the callback re-enters with the same template, settings, priority, context and key", ok, f.where(c_), detail=str(args),
                construct=f.ident, text="callback binding")
+    # every self-re-arming placeholder callback of a device re-arms *itself* (not a sibling)
+    n_self = 0
+    for f2 in repo.all_funcs("mpf/devices/"):
+        if not f2.name.endswith("_placeholder"):
+            continue
+        for c_ in f2.calls():
+            if call_attr(c_) == "add_done_callback" and c_.args:
+                a0 = c_.args[0]
+                target = a0.args[0] if isinstance(a0, ast.Call) and call_attr(a0) == "partial" and a0.args else a0
+                if isinstance(target, ast.Attribute) and src(target.value) == "self" and target.attr.endswith("_placeholder"):
+                    n_self += 1
+                    chk.analysed(f2)
+                    chk.ob("PAIR-19", "%s re-subscribes itself when its template's inputs change" % f2.qualname, target.attr == f2.name, f2.where(c_),
+                           detail="re-arms %s: this value is computed once and never again" % target.attr, construct=f2.ident,
+                           text="re-arm target %s in %s" % (target.attr, f2.name))
+    chk.ob("PAIR-19", "self re-arming placeholder callbacks examined", n_self >= 2, "mpf/devices:1", detail="%d" % n_self, nontrivial=False)
+    # settings: the variable a template subscribes to is the variable the value is read from and written to
+    sc_ = repo.cls("mpf/core/settings_controller.py", "SettingsController")
+    fields = {}
+    for nm in ("get_setting_machine_var", "get_setting_value", "set_setting_value"):
+        m_ = sc_.methods.get(nm)
+        if m_ is None:
+            chk.expect(False, "C16: SettingsController.%s vanished" % nm)
+            continue
+        chk.analysed(m_)
+        used = {x.attr for x in ast.walk(m_.node) if isinstance(x, ast.Attribute) and isinstance(x.value, ast.Subscript) and src(x.value.value) == "self._settings"}
+        fields[nm] = used
+    gv = fields.get("get_setting_machine_var", set())
+    chk.ob("TABLE-8", "the machine variable a settings template subscribes to is the one the setting's value lives in", gv == {"machine_var"} and
+           "machine_var" in fields.get("get_setting_value", set()) and "machine_var" in fields.get("set_setting_value", set()), sc_.where(),
+           detail="fields used: %s" % {k: sorted(v) for k, v in fields.items()}, construct=sc_.ident, text="settings variable agreement %s" % sorted(gv))
+    sp_ = repo.cls(PM, "SettingsPlaceholder").methods["subscribe_attribute"]
+    ok = any(call_attr(c_) == "get_setting_machine_var" for c_ in sp_.calls())
+    chk.ob("TABLE-8", "SettingsPlaceholder subscribes to the setting's machine variable (looked up through the settings controller)", ok, sp_.where(),
+           construct=sp_.ident, text="settings subscription lookup")
     st = [x for x in walk_local(f.node) if isinstance(x, ast.Assign) and src(x.targets[0]) == "subscription_list[template]"]
     chk.ob("PAIR-19", "the live subscription is stored where unload cancels it", bool(st) and src(st[0].value) == "subscription", f.where(), construct=f.ident,
            text="subscription stored")
@@ -472,6 +507,8 @@ def battery():
         # twins
         M("twin: subscription sum reordered", PM, "        return ret_value, left_subscription + right_subscription", "        return ret_value, right_subscription + left_subscription", None),
         M("twin: named functions for bool ops", PM, "BOOL_OPERATORS = {ast.And: lambda a, b: a and b, ast.Or: lambda a, b: a or b}", "BOOL_OPERATORS = {ast.And: lambda x, y: x and y, ast.Or: lambda x, y: x or y}", None),
+        M("timed-enable placeholder re-arms the pulse placeholder", "mpf/devices/driver.py", "            future.add_done_callback(self._calculate_timed_enable_ms_placeholder)", "            future.add_done_callback(self._calculate_pulse_ms_placeholder)", "PAIR-19"),
+        M("settings template subscribes to the setting's name", "mpf/core/settings_controller.py", "        return self._settings[setting_name].machine_var\n", "        return self._settings[setting_name].name\n", "TABLE-8"),
     ]
 
 
